@@ -25,7 +25,7 @@ def main():
     def run_demo():
         if os.path.exists(f"{wt}/demo.sh"):
             sh("cargo build --offline", wt)
-            rc, o = sh("sh demo.sh", wt)
+            rc, o = sh("bash demo.sh", wt)
             return f"exit {rc}: " + o.strip()[-300:].replace("\n", " | ")
         if has_demo_diff and test_name:
             rc, o = sh(f"cargo test --offline {test_name} 2>&1 | grep -E '^test result|FAILED|panicked' | head -3", wt)
